@@ -322,6 +322,16 @@ def run_real(root: Path, out_dir: Path, cleanup="full"):
         "programs": db.programs_infos, "labels": dict(db.labels), "taxa": dict(db.taxa),
         "importations": dict(db.importations), "exportations": dict(db.exportations)}))
     spath = out_dir / "out_db.sqlite"
+    if db.programs_infos and len(str(root)) % 2 == 0:
+        # the target already holds the export of an EARLIER, LARGER collection (one more program, with the facts of an
+        # existing one): what is written now must be the facts of THIS collection only (seed C18-m: the file updated in
+        # place, rows of programs no longer collected never purged)
+        import copy
+        stale = copy.copy(db)
+        first = next(iter(db.programs_infos))
+        stale.programs_infos = dict(db.programs_infos)
+        stale.programs_infos["zz_no_longer_collected.py"] = db.programs_infos[first]
+        quiet(stale.write_sqlite, spath)
     quiet(db.write_sqlite, spath)
     res["sqlite_first"] = read_sqlite(spath)
     # a second export onto the SAME existing files must leave the same facts (and the same JSON bytes)
